@@ -365,6 +365,16 @@ func cmdCheck(args []string) int {
 		fmt.Printf("BROKEN-CHECK: zero obligations generated for %s\n", prop)
 		rc = 2
 	}
+	bounded, bviol := runBounded(prop, tier, work)
+	if bviol > 0 {
+		violations += bviol
+		rc = 1
+	}
+	for _, b := range bounded {
+		if b.Status != "ok" && b.Status != "fail" && rc == 0 {
+			rc = 2
+		}
+	}
 	// evidence
 	trusted := map[string]bool{}
 	var assumptions []string
@@ -400,6 +410,9 @@ func cmdCheck(args []string) int {
 		"samples":                  samples,
 		"solver_timeout_s":         opts.timeoutS,
 		"two_solver_agreement":     opts.twoSolvers,
+	}
+	if len(bounded) > 0 {
+		cov["bounded_standins_not_counted_as_proved"] = bounded
 	}
 	ev := map[string]interface{}{
 		"property_id": prop,
